@@ -108,6 +108,12 @@ func (s *Server) livesimHandlerFunc(w http.ResponseWriter, r *http.Request) {
 		return
 	}
 	cfg.SetHost(s.Cfg.Host, r)
+	if cfg.DRM != "" && cfg.DRM != "eccp-cenc" && cfg.DRM != "eccp-cbcs" {
+		if s.Cfg.DrmCfg == nil || s.Cfg.DrmCfg.Map[cfg.DRM] == nil {
+			http.Error(w, fmt.Sprintf("unknown drm %q", cfg.DRM), http.StatusBadRequest)
+			return
+		}
+	}
 	switch filepath.Ext(r.URL.Path) {
 	case ".mpd":
 		if !checkQuery(cfg.Query, r.URL) {
